@@ -202,6 +202,22 @@ Definition sort_pass (sch : list name) (k : expr * sdir) (rows : list row) : opt
       else None
   end.
 
+(* DataFrame.sort / orderBy with an `ascending` argument: the argument handling of DataFrame._sort_cols.
+   `ascending` absent or a true scalar: the keys as given; a false scalar: every key wrapped in .desc();
+   a list: zip(ascending, cols) -- key kept as it is when its flag is true, wrapped in .desc() otherwise
+   (zip stops at the shorter of the two).  Wrapping a key in Desc hides any ordering it carried:
+   Column.sort_order reads the OUTER SortOrder, SortOrder.eval passes the value through. *)
+Inductive asc_arg := AscAbsent | AscScalar (b : bool) | AscList (bs : list bool).
+
+Definition desc_of (k : expr * sdir) : expr * sdir := (fst k, DDesc).
+
+Definition sort_cols (ks : list (expr * sdir)) (a : asc_arg) : list (expr * sdir) :=
+  match a with
+  | AscAbsent => ks
+  | AscScalar b => if b then ks else map desc_of ks
+  | AscList bs => map (fun p : bool * (expr * sdir) => if fst p then snd p else desc_of (snd p)) (combine bs ks)
+  end.
+
 Section WithSplit.
 (* Context.parallelize(list, numSlices): how a list is cut into partitions; [h] is the requested count *)
 Variable split : nat -> list row -> list (list row).
@@ -266,7 +282,7 @@ Inductive op :=
 | OUnionByName (other : list op)
 | ODistinct
 | ODropDuplicates (ns : list name)
-| OSort (ks : list (expr * sdir))
+| OSort (ks : list (expr * sdir)) (a : asc_arg)
 | OLimit (n : nat).
 
 (* the operators that involve one data frame *)
@@ -280,7 +296,7 @@ Definition step_simple (o : op) (d : df) : option df :=
   | OToDF ns => toDF ns d
   | ODistinct => Some (distinct d)
   | ODropDuplicates ns => dropDuplicates ns d
-  | OSort ks => match ks with [] => None (* ValueError *) | _ => sort_df ks d end
+  | OSort ks a => match ks with [] => None (* ValueError *) | _ => sort_df (sort_cols ks a) d end
   | OLimit n => Some (limit n d)
   | OUnion _ | OUnionByName _ => None          (* no nested unions in the second operand *)
   end.
